@@ -459,4 +459,44 @@ def literalAlternatives : List String :=
 `Phase1Transpiler.literal` defers exactly the same class to evaluation time (`literal_error`). -/
 def literalCaught : List Exc := [.valueError]
 
+/-! ### a body as a sequence of freely chosen spellings (specification side) -/
+
+/-- one element of a cooked string body, spelled in any of the forms the property lists -/
+inductive Piece where
+  | lit (c : Nat)                       -- the character itself
+  | simple (e : Nat)                    -- `\e`
+  | hex (h1 h2 : Nat)                   -- `\xHH`
+  | u4 (h : Text)                       -- `\uHHHH`
+  | u8 (h : Text)                       -- `\UHHHHHHHH`
+  | oct (o1 o2 o3 : Nat)                -- `\ooo`
+
+def Piece.render : Piece → Text
+  | .lit c => [c]
+  | .simple e => [92, e]
+  | .hex h1 h2 => [92, 120, h1, h2]
+  | .u4 h => 92 :: 117 :: h
+  | .u8 h => 92 :: 85 :: h
+  | .oct o1 o2 o3 => [92, o1, o2, o3]
+
+def Piece.value : Piece → Nat
+  | .lit c => c
+  | .simple e => simpleVal e
+  | .hex h1 h2 => hexVal h1 * 16 + hexVal h2
+  | .u4 h => digitsVal 16 hexVal h
+  | .u8 h => digitsVal 16 hexVal h
+  | .oct o1 o2 o3 => (o1 - 48) * 64 + (o2 - 48) * 8 + (o3 - 48)
+
+def Piece.valid : Piece → Prop
+  | .lit c => c ≠ 92
+  | .simple e => isSimple e = true
+  | .hex h1 h2 => isHex h1 = true ∧ isHex h2 = true
+  | .u4 h => h.length = 4 ∧ h.all isHex = true ∧ isScalar (digitsVal 16 hexVal h) = true
+  | .u8 h => h.length = 8 ∧ h.all isHex = true ∧ isScalar (digitsVal 16 hexVal h) = true
+  | .oct o1 o2 o3 => 48 ≤ o1 ∧ o1 ≤ 51 ∧ isOct o2 = true ∧ isOct o3 = true
+
+def renderAll : List Piece → Text
+  | [] => []
+  | p :: ps => p.render ++ renderAll ps
+
+
 end Cel.Str
